@@ -44,6 +44,9 @@ def check(prop, tier, seed):
     if prop != "C05":
         # far-below-scale populations (whole-population ties); result-level oracles only
         items += [{"s": k} for k in range(len(universe.small_population_battery()))]
+        # variety of user-supplied objects (numpy / int / float32 objective values, huge / tiny values, wide / narrow / integer
+        # bounds, string / tuple / None choices, 40 dimensions); result-level oracles only
+        items += [{"y": k} for k in range(len(universe.types_battery()))]
     if prop == "C02":
         items += [{"n": k} for k in range(len(universe.battery_inf()))]      # non-finite objective values
     if prop == "C10":
@@ -74,7 +77,7 @@ def check(prop, tier, seed):
     rep.extra["elitist_generation_pairs"] = counters["sum_c17_pairs"]
     for item, obs in pairs[:400]:
         if nontrivial(obs) and len(rep.samples) < 4:
-            if isinstance(item, dict) and ("b" in item or "n" in item or "v" in item or "s" in item):
+            if isinstance(item, dict) and ("b" in item or "n" in item or "v" in item or "s" in item or "y" in item):
                 continue
             c = universe.case_ext(item["e"]) if isinstance(item, dict) and "e" in item else universe.case(item if isinstance(item, int) else item["i"])
             rep.sample({"item": item, "optimizer": obs["opt"], "task_kind": obs["kind"], "minmax": obs["minmax"],
